@@ -496,7 +496,7 @@ INVALID = {
   ("imsc_writer", "time_format"): [("unknown-keyword", "FRAMES"), ("unknown-keyword", "smpte"), ("unknown-keyword", ""),
                                    ("unknown-keyword", "clock_time "), ("wrong-type", 1), ("wrong-type", True),
                                    ("wrong-type", ["frames"]), ("wrong-type", {})],
-  ("imsc_writer", "fps"): [("malformed", "25"), ("malformed", "25/"), ("malformed", "/1"), ("malformed", "25/1/1"),
+  ("imsc_writer", "fps"): [("out-of-range", "0/1"), ("out-of-range", "-25/1"), ("malformed", " 25/1"), ("malformed", "25/1_0"), ("malformed", "25"), ("malformed", "25/"), ("malformed", "/1"), ("malformed", "25/1/1"),
                            ("malformed", "a/b"), ("malformed", "25.0/1"), ("malformed", ""), ("malformed", "25:1"),
                            ("malformed", "25/0"), ("wrong-type", 25), ("wrong-type", 25.0), ("wrong-type", True),
                            ("wrong-type", ["25/1"]), ("wrong-type", [25, 1]), ("wrong-type", {})],
